@@ -24,14 +24,18 @@ Begin == /\ E("begin")
          /\ ctx' = [id |-> Rec[l].id, begin |-> l]
          /\ Line("BEGIN", Rec[l].id, Rec[l].profile)
 
-\* exactly the closure is captured
+\* everything in the closure is captured (a copy that lacks something reachable from the
+\* seeds cannot answer every solve over them); capturing MORE than the closure is harmless
+\* and only counted (cover tag `captured_more`)
 Captured ==
   /\ E("captured") /\ UNCHANGED ctx
   /\ LET r == Rec[l] IN
-     /\ Chk(Range(r.names) = Cap.names, "C16_CapturedNames", <<Range(r.names), Cap.names>>)
-     /\ Chk(Range(r.vs) = Cap.vs, "C16_CapturedVersionSets", <<Range(r.vs), Cap.vs>>)
-     /\ Chk(Range(r.solv) = Cap.solv, "C16_CapturedSolvables", <<Range(r.solv), Cap.solv>>)
+     /\ Chk(Cap.names \subseteq Range(r.names), "C16_CapturedNames", <<Range(r.names), Cap.names>>)
+     /\ Chk(Cap.vs \subseteq Range(r.vs), "C16_CapturedVersionSets", <<Range(r.vs), Cap.vs>>)
+     /\ Chk(Cap.solv \subseteq Range(r.solv), "C16_CapturedSolvables", <<Range(r.solv), Cap.solv>>)
      /\ Line("COVER", ctx.id, "captured" \o (IF Cardinality(Cap.vs) >= 3 THEN ",vs3" ELSE "")
+                                \o (IF Range(r.names) # Cap.names \/ Range(r.vs) # Cap.vs \/ Range(r.solv) # Cap.solv
+                                    THEN ",captured_more" ELSE "")
                                 \o (IF r.unions > 0 THEN ",unions" ELSE ""))
 
 QCands ==
